@@ -6,8 +6,8 @@ from pyvc.values import *  # noqa
 from pyvc.models_ext2 import FileObj, PathTok
 from contracts.lib import *  # noqa
 
-LEVEL = "proof"
-MANIFEST_ENTRY = {"text": 'Unbounded proof, for all container contents, offsets, lengths and data, that _read_share_data/_write_share_data/_change_container_size implement a growable byte array with zero gap fill and never alter leases, enabler or nodeid.', "note": 'Trusted: POSIX file model (atomic seek/read/write with zero gap fill), big-endian struct codec as uninterpreted bijection, pyvc engine, z3. Termination not proved. Sequences covered by composition of per-call contracts on well-formed containers.'}
+LEVEL = "other"
+MANIFEST_ENTRY = {"text": 'Level other because part of the obligations are shape-bounded (write/test/read vectors of length 0..2; the vector loop of writev is ALSO proved for any length by an invariant). Unbounded proof, for all container contents, offsets, lengths and data, that _read_share_data/_write_share_data/_change_container_size implement a growable byte array with zero gap fill and never alter leases, enabler or nodeid.', "note": 'Trusted: POSIX file model (atomic seek/read/write with zero gap fill), big-endian struct codec as uninterpreted bijection, pyvc engine, z3. Termination not proved. Sequences covered by composition of per-call contracts on well-formed containers.'}
 EXPLANATION = ("Pre/postconditions on the real MutableShareFile methods over an array model of the container file; "
                "every obligation holds for all file contents, offsets, lengths and data (no bound).")
 TRUSTED = ["file model: POSIX seek/read/write incl. zero gap fill (DESIGN 2.6)",
